@@ -229,6 +229,35 @@ def handle (op : String) (args : List Sexp) : Option Ans :=
         match build (accept full t) with
         | none => fail "rebuild"
         | some t' => if accept full t' == accept full t then pass else fail "replay")
+  | "oracle-full-read", [bytes, frames] => do
+    let total ← byteLen bytes
+    let cs ← toListOf? toFrame? frames
+    pure (if !inDomain cs total then ood else
+      let rs := readStream (cs.map (fun _ => full)) cs 0 total
+      if rs.length == cs.length
+          && (List.zip cs rs).all (fun (c, r) => match r with | .ok (n, _) => n == c.size | _ => false)
+      then pass else fail "full-read")
+  | "oracle-replay-projection", [bytes, frame, cfg] => do
+    let total ← byteLen bytes
+    let c ← toFrame? frame
+    let cfg ← toCfg? cfg
+    pure (if !inDomain [c] total then ood else
+      match build (fullEvents c) with
+      | none => ood
+      | some t => if accept cfg t == (accept full t).filterMap (projA cfg) then pass else fail "replay-projection")
+  | "oracle-replay-masked", [bytes, frame, cfg] => do
+    let total ← byteLen bytes
+    let c ← toFrame? frame
+    let cfg ← toCfg? cfg
+    pure (if !inDomain [c] total || !cfg.fieldsI || !cfg.methodsI
+          || !((List.range c.methods.length).all (fun i => match codeMaskOf cfg i with
+                | some cm => cm .stackMapTable && (cm .lvt == cm .lvtt) | none => true)) then ood else
+      match build (fullEvents c) with
+      | none => ood
+      | some t =>
+        match readWith cfg c total with
+        | .ok (_, evs) => if sameDigest (accept cfg t) evs then pass else fail "replay-masked"
+        | _ => fail "read")
   | _, _ => none
 
 end C17
